@@ -812,6 +812,147 @@ def _c10_worker(args):
     return res
 
 
+# ------------------------------------------------------------------ C10: a successor with the pid of a killed server
+def _c10_samepid_worker(args):
+    """One program per index: a server (pid P inside its own pid namespace) is killed before its k-th mutating call,
+    for every k; then a NEW server that has the SAME pid P serves lying Puts (declared hash of other bytes) to every
+    path the victim touched, then honest ones. Whatever the victim left under its staging names belongs to the
+    successor's name space now; no listable path may change through a refused Put, and honest Puts must land."""
+    seedv, idx, wroot = args
+    res = {"evaluations": 0, "distinct": set(), "viol": [], "counters": {}, "samples": [], "inconclusive": 0}
+    cn = res["counters"]
+
+    def cnt(k, n=1):
+        cn[k] = cn.get(k, 0) + n
+
+    b3 = B3()
+    rng = SplitMix.derive(seedv, "c10samepid", idx)
+    wd = os.path.join(wroot, "sp%d" % idx)
+    home = os.path.join(wd, "home")
+    root = os.path.join(wd, "hub")
+    env = base_env(home)
+
+    def blob(tag, size):
+        return (b"%s-%d-" % (tag.encode(), idx)) + rng.bytes(8).hex().encode() + bytes(rng.bytes(max(0, size - 30)))
+
+    sz = lambda: rng.pick([40, 5000, 70000, 300000])
+    old_path = rng.pick(["old", "d/old", "o l d"])
+    new_path = rng.pick(["fresh", "d/fresh", "e/f/fresh"])
+    initial = {old_path: blob("init", sz())}
+    c_new, c_old2 = blob("create", sz()), blob("replace", sz())
+    h = lambda d: b3.data(d)
+    victim_ops = [("put", new_path, None, c_new), ("put", old_path, h(initial[old_path]), c_old2)]
+    if rng.chance(1, 2):
+        victim_ops.reverse()
+    if rng.chance(1, 3):
+        victim_ops.append(("delete", new_path, h(c_new), None))
+    data = cbor.MAGIC + cbor.req_hello()
+    for kind, pth, exp, body in victim_ops:
+        data += (cbor.req_put(pth, exp, len(body), h(body)) + body) if kind == "put" else cbor.req_delete(pth, exp)
+    data += cbor.req_bye()
+    allowed = {old_path: {ident(initial[old_path]), ident(c_old2)}, new_path: {None, ident(c_new)}}
+    k = 0
+    states = set()
+    while True:
+        k += 1
+        if k > 200:
+            res["inconclusive"] += 1
+            break
+        materialise(root, initial)
+        rmtree(home)
+        os.makedirs(home)
+        t1 = os.path.join(wd, "t1")
+        for f in os.listdir(wd):
+            if f.startswith("t1.") or f.startswith("t2.") or f.startswith("t3."):
+                os.unlink(os.path.join(wd, f))
+        r1 = session(root, data, env, trace=t1, pidns=True, kill_at=k)
+        tr = read_traces(t1)
+        if r1["timed_out"]:
+            res["inconclusive"] += 1
+            break
+        killed = [e for pid in tr for e in tr[pid] if e.op == "KILL"]
+        if not killed:
+            break
+        res["evaluations"] += 1
+        vpid = list(tr)[0]
+        label = {"program": idx, "k": k, "killed_before": "%s %s" % (killed[0].extra, os.path.relpath(killed[0].p1, root) if killed[0].p1 and killed[0].p1.startswith(root) else killed[0].p1), "victim_pid": vpid, "victim_ops": [(a, b_) for a, b_, _, _ in victim_ops]}
+        cnt("kills_before[%s]" % killed[0].extra)
+
+        def judge(when, expect_same=None):
+            tree = walk_root(root)
+            for rel, (idv, _sz) in tree.items():
+                if rel.endswith(STAGING):
+                    continue
+                if rel not in allowed:
+                    res["viol"].append(("C10|same-pid-successor|unexpected-listable-path", dict(label, when=when, path=rel)))
+                elif idv not in allowed[rel]:
+                    res["viol"].append(("C10|same-pid-successor|path-holds-unverified-or-partial-bytes", dict(label, when=when, path=rel)))
+            if expect_same is not None:
+                for rel in set(expect_same) | set(tree):
+                    if rel.endswith(STAGING):
+                        continue
+                    if tree.get(rel, (None,))[0] != expect_same.get(rel, (None,))[0]:
+                        res["viol"].append(("C10|same-pid-successor|refused-put-changed-a-listable-path", dict(label, when=when, path=rel)))
+            return tree
+
+        after_kill = judge("after-kill")
+        leftovers = sorted(rel for rel in after_kill if rel.endswith(STAGING))
+        if leftovers:
+            cnt("kills_leaving_a_staging_file")
+        # the successor: same pid, lying Puts (the declared hash is the hash of OTHER bytes of the same length)
+        lies = cbor.MAGIC + cbor.req_hello()
+        for pth in (new_path, old_path):
+            cur = after_kill.get(pth)
+            curh = None
+            if cur is not None:
+                with open(os.path.join(root, pth), "rb") as f:
+                    curh = h(f.read())
+            truth = blob("truth", rng.pick([40, 5000, 70000]))
+            lie = bytes(x ^ 0x55 for x in truth)
+            lies += cbor.req_put(pth, curh, len(lie), h(truth)) + lie
+        lies += cbor.req_list() + cbor.req_bye()
+        t2 = os.path.join(wd, "t2")
+        r2 = session(root, lies, env, trace=t2, pidns=True)
+        tr2 = read_traces(t2)
+        spid = list(tr2)[0] if tr2 else None
+        if spid != vpid:
+            cnt("successor_pid_differs")  # the clause under test was not exercised
+        else:
+            cnt("successors_with_the_victims_pid")
+        reps, _ = parse_replies(r2["out"])
+        if any(rp.get("kind") == "PutResult" for rp in reps):
+            res["viol"].append(("C10|same-pid-successor|malformed-put-acknowledged", dict(label, replies=[rp.get("kind") for rp in reps])))
+        after_lies = judge("after-lying-puts", expect_same=after_kill)
+        # honest Puts by a third server with that pid: they must land whatever is lying around
+        fin = {new_path: blob("fin1", sz()), old_path: blob("fin2", sz())}
+        hon = cbor.MAGIC + cbor.req_hello()
+        for pth in (new_path, old_path):
+            curh = None
+            if pth in after_lies:
+                with open(os.path.join(root, pth), "rb") as f:
+                    curh = h(f.read())
+            hon += cbor.req_put(pth, curh, len(fin[pth]), h(fin[pth])) + fin[pth]
+        hon += cbor.req_get(new_path) + cbor.req_bye()
+        r3 = session(root, hon, env, trace=os.path.join(wd, "t3"), pidns=True)
+        reps3, _ = parse_replies(r3["out"])
+        puts3 = [rp for rp in reps3 if rp.get("kind") == "PutResult"]
+        tree = walk_root(root)
+        if len(puts3) == 2 and all(rp.get("committed") for rp in puts3):
+            for pth in fin:
+                if tree.get(pth, (None,))[0] != ident(fin[pth]):
+                    res["viol"].append(("C10|same-pid-successor|acknowledged-put-is-not-the-live-content", dict(label, path=pth)))
+        else:
+            res["viol"].append(("C10|same-pid-successor|honest-put-after-a-kill-not-committed", dict(label, replies=[(rp.get("kind"), rp.get("committed"), str(rp.get("message", ""))[:80]) for rp in reps3])))
+        states.add((k, tuple(leftovers), tuple(sorted((rel, v[0]) for rel, v in after_kill.items()))))
+    cnt("kill_points", k - 1)
+    for st in states:
+        res["distinct"].add("samepid|%d|%x" % (idx, hash(st) & 0xFFFFFFFF))
+    res["samples"].append({"program": idx, "kill_points": k - 1, "victim_ops": [(a, b_) for a, b_, _, _ in victim_ops]})
+    b3.close()
+    rmtree(wd)
+    return res
+
+
 def c10(tier):
     build("cli", "shim", "vh")
     r = Result("C10", "exploration", "one evaluation = one gated schedule (as C03, with more Gets, larger contents and kills) or one (program, k) of a kill sweep or one malformed Put; after EVERY scheduling step ROOT is walked and every listable non-staging file must be byte-identical to its initial content or to one complete Put whose streamed bytes hashed to its declared hash (unique contents make membership exact); kill sweeps answer KILL at gate k of a server for every k of a fixed program and base schedule; malformed Puts (wrong hash, short content then EOF with the hash of the full or of the short bytes, length larger/smaller than sent) must change no listable path and not be acknowledged; every Get reply must deliver exactly len bytes hashing to the announced hash with the stream staying in step; distinct non-trivial = step sequences with overlapping staging or a Get overlapped by a commit, kills by gate kind, malformed-Put kinds by reply")
@@ -829,6 +970,9 @@ def c10(tier):
             for lo in range(0, 160, 10):
                 jobs.append((seed(), lo, lo + 10, wroot, ("kill", sw + seed() * 1000, victim)))
     fold(r, run_jobs(_c10_worker, jobs))
+    nsp = 64 if th else 10
+    fold(r, run_jobs(_c10_samepid_worker, [(seed(), i + (seed() * 1000 if not th else 0), wroot) for i in range(nsp)]))
+    r.extra["same_pid_successor_programs"] = nsp
     rmtree(wroot)
     r.extra["kill_sweeps"] = {"programs": nsweeps, "victims_per_program": 2, "k_range": "1..160 (sweep ends at the victim's last gate)"}
     r.assumptions = ["kills land at gates (before libc calls) of the victim server", "sync_all -> nothing is not observable by a process kill; the order 'hash verified before rename' is", "staging names are recognised only by the .copia-tmp suffix"]
@@ -838,12 +982,19 @@ def c10(tier):
 
 
 # ------------------------------------------------------------------ plain (ungated) sessions
-def session(root, data, env, trace=None, alloc_floor=None, pieces=None, rlimit_as_kib=None, timeout=30, close_after=True, valgrind=False):
-    """Feed `data` (bytes, or list of pieces) to one `copia serve root`; returns dict(out, err, code, signal, timed_out)."""
+PIDNS = ["unshare", "-p", "-f", "--kill-child", "bash", "-c", '"$0" "$@"; exit $?']
+
+
+def session(root, data, env, trace=None, alloc_floor=None, pieces=None, rlimit_as_kib=None, timeout=30, close_after=True, valgrind=False, pidns=False, kill_at=None):
+    """Feed `data` (bytes, or list of pieces) to one `copia serve root`; returns dict(out, err, code, signal, timed_out).
+    pidns: the server runs in a pid namespace of its own, below a shell that is the namespace's init, so that
+    its getpid() is the same small number in every such session (a server that has the pid of a killed one)."""
     e = env
-    if trace or alloc_floor:
-        e = shim_env(env, log=trace, alloc_floor=alloc_floor)
+    if trace or alloc_floor or kill_at:
+        e = shim_env(env, log=trace, alloc_floor=alloc_floor, kill_at=kill_at, kill_class="mutating" if kill_at else None)
     argv = [COPIA, "serve", root]
+    if pidns:
+        argv = PIDNS + argv
     if valgrind:
         from common import COPIA_VG
         argv = [COPIA_VG, "serve", root]
